@@ -22,6 +22,8 @@ from ..statusmodel import extract
 from . import c01
 
 PROPERTY = "C02"
+TECHNIQUE = "static analysis: critical-section automaton over the CFG (BEGIN IMMEDIATE ... commit on one connection; `with <lock>` blocks), lock-identity rule for the per-invocation lock table, single-writer rule, exception-edge rule for losers of the claim race, must-pass-through of the ownership-checked RUNNING request before the task body"
+LEVEL_TEXT = "Necessary structural conditions of mutual exclusion decided on every path of the claim code of both backends; the interleaving semantics of threading.Lock and SQLite's BEGIN IMMEDIATE are trusted, not modelled."
 
 
 def r1_sqlite(ctx: Context, all_sites) -> None:
